@@ -337,7 +337,7 @@ func (e *Env) lvals(x ast.Expr) []LV {
 				return []LV{{Arr: mapDomArr(ks), Sort: mapDomSort(ks), Idx: m.T}, {Arr: mapValArr(ks, vs), Sort: mapValSort(ks, vs), Idx: m.T}}
 			}
 			if sf, ok := vc.specs.SpecFuncs[id.Name]; ok && !sf.Opaque {
-				se := &Env{vc: vc, pkg: sf.Pkg, vars: map[string]TV{}, heap: e.heap, old: e.old, tparams: e.tparams}
+				se := &Env{vc: vc, pkg: sf.Pkg, vars: map[string]TV{}, heap: e.heap, old: e.old, tparams: e.tparams, facts: e.facts}
 				for i, p := range sf.Params {
 					se.vars[p.Name] = e.tr(x.Args[i])
 				}
@@ -356,8 +356,15 @@ func (e *Env) fieldLV(base TV, name string, n ast.Node) []LV {
 		ck := typeKey(base.S.Go)
 		for _, b := range vc.specs.Bindings {
 			if b.Concrete == ck && b.Field == name {
-				be := &Env{vc: vc, pkg: b.Pkg, vars: map[string]TV{b.RecvName: base}, heap: e.heap, old: e.old, tparams: e.typeArgEnv(named)}
-				out := be.lvals(b.Expr)
+				be := &Env{vc: vc, pkg: b.Pkg, vars: map[string]TV{b.RecvName: base}, heap: e.heap, old: e.old, tparams: e.typeArgEnv(named), facts: e.facts}
+				var out []LV
+				if len(b.Footprint) > 0 {
+					for _, fe := range b.Footprint {
+						out = append(out, be.lvals(fe)...)
+					}
+				} else {
+					out = be.lvals(b.Expr)
+				}
 				// the interface-level slot of the same object is dead storage (reads go through the binding): writable too
 				if gf, ok := vc.specs.GhostFields[b.Iface+"."+name]; ok {
 					out = append(out, e.ghostLV(gf, base, nil))
@@ -371,8 +378,14 @@ func (e *Env) fieldLV(base TV, name string, n ast.Node) []LV {
 				for _, b := range vc.specs.Bindings {
 					if b.Iface == okey && b.Field == name {
 						ct := e.concreteTypeOf(b)
-						be := &Env{vc: vc, pkg: b.Pkg, vars: map[string]TV{b.RecvName: {T: app("pl", base.T), S: goSType(ct)}}, heap: e.heap, old: e.old}
-						out = append(out, be.lvals(b.Expr)...)
+						be := &Env{vc: vc, pkg: b.Pkg, vars: map[string]TV{b.RecvName: {T: app("pl", base.T), S: goSType(ct)}}, heap: e.heap, old: e.old, facts: e.facts}
+						if len(b.Footprint) > 0 {
+							for _, fe := range b.Footprint {
+								out = append(out, be.lvals(fe)...)
+							}
+						} else {
+							out = append(out, be.lvals(b.Expr)...)
+						}
 					}
 				}
 			}
@@ -388,6 +401,7 @@ func (e *Env) fieldLV(base TV, name string, n ast.Node) []LV {
 			cur := base
 			for _, idx := range path[:len(path)-1] {
 				cur = vc.stepField(e.heap, cur, idx)
+				e.noteAllocated(cur)
 			}
 			t := types.Unalias(cur.S.Go)
 			if p, ok := t.Underlying().(*types.Pointer); ok {
